@@ -5,7 +5,7 @@ import numpy as np
 from hypothesis import strategies as st
 
 from .. import repo, strategies as S, trcases as TR
-from ..core import SubCheck, Fail, Discard, metric, HarnessError
+from ..core import SubCheck, Fail, Discard, metric, HarnessError, is_seq
 
 RULE = ("lat in [-90, 90], lon in [-360, 360] incl. poles and cardinal meridians; vectors up to 1e7 m; symmetric PSD matrices "
         "(full rank, rank 2, rank 1, diagonal, zero, condition number up to 1e8), 3x1 variance columns, arbitrary (non-symmetric) "
@@ -109,11 +109,11 @@ def check_frame(case):
     want = np.column_stack([e, n, u])
     d = float(np.abs(R - want).max())
     metric("frame_err", d)
-    if not d <= 1e-15:
+    if not d <= 4e-15:
         raise Fail("local frame columns are not (east, north, ellipsoid normal)", expected=want, observed=R)
-    if not float(np.abs(R.T @ R - np.eye(3)).max()) <= 2e-15:
+    if not float(np.abs(R.T @ R - np.eye(3)).max()) <= 4e-15:
         raise Fail("local frame is not orthonormal", observed=R.T @ R)
-    if not abs(float(np.linalg.det(R)) - 1.0) <= 4e-15:
+    if not abs(float(np.linalg.det(R)) - 1.0) <= 8e-15:
         raise Fail("local frame is not right-handed (det != +1)", observed=float(np.linalg.det(R)))
     v = np.array(case["v"], dtype=float)
     nv = float(np.linalg.norm(v))
@@ -252,7 +252,7 @@ def check_relative(case):
     lat, lon = case["lat"], case["lon"]
     v1, v2, c12 = (np.array(case[k], dtype=float) for k in ("var1", "var2", "cov12"))
     got = stt.relative_error(lat, lon, v1, v2, c12)
-    if not (isinstance(got, tuple) and len(got) == 4):
+    if not is_seq(got, 4):
         raise Fail("relative_error did not return (a, b, orientation, up)", observed=repr(got))
     e, n, u = _frame(lat, lon)
     R = np.column_stack([e, n, u])
